@@ -69,6 +69,11 @@ func (e *Engine) load(patterns []string) error {
 			} else {
 				e.cfiles[p.PkgPath] = cf
 			}
+			for _, gf := range cf.GhostFields {
+				k := p.PkgPath + "." + gf.TypeName
+				e.ghostFields[k] = append(e.ghostFields[k], gf)
+				e.ghostFieldHome[k] = p.PkgPath
+			}
 			for _, im := range cf.Immutable {
 				if i := strings.LastIndex(im, "."); i >= 0 {
 					e.immutable[e.resolvePkgPath(im[:i])+"."+im[i+1:]] = true
@@ -639,9 +644,27 @@ func (u *Unit) allowedTargets(mods []string, eenvp *SpecEnv, pos token.Pos) map[
 					allowed[k] = append(allowed[k], p.T)
 				}
 			case *SSel:
+				if inner, ok := x.X.(*SSel); ok {
+					if id, ok := inner.X.(*SIdent); ok {
+						if _, isVal := eenv.lookupValue(id.Name); !isVal && eenv.importedPkg(id.Name) != nil {
+							if ty := u.tryResolveNamed(eenv.home, id.Name+"."+inner.Name); ty != nil {
+								if gk, _, _, ok := u.ghostFieldKey(types.NewPointer(ty), x.Name); ok {
+									allowed[gk] = []string{"*"}
+									return
+								}
+								allowed[u.heapKeyField(u.sortOf(ty), x.Name)] = []string{"*"}
+								return
+							}
+						}
+					}
+				}
 				if id, ok := x.X.(*SIdent); ok {
 					if _, isVal := eenv.lookupValue(id.Name); !isVal {
 						if tn, ok := u.pkg.Types.Scope().Lookup(id.Name).(*types.TypeName); ok {
+							if gk, _, _, ok := u.ghostFieldKey(types.NewPointer(tn.Type()), x.Name); ok {
+								allowed[gk] = []string{"*"}
+								return
+							}
 							allowed[u.heapKeyField(u.sortOf(tn.Type()), x.Name)] = []string{"*"}
 							return
 						}
@@ -651,6 +674,11 @@ func (u *Unit) allowedTargets(mods []string, eenvp *SpecEnv, pos token.Pos) map[
 				pt, _ := isPointer(base.Ty)
 				if pt == nil {
 					u.unsupported(pos, "modifies %s: base is not a pointer", m)
+				}
+				if gk, gs, _, ok := u.ghostFieldKey(base.Ty, x.Name); ok {
+					u.heapGet(u.entry, gk, gs)
+					allowed[gk] = append(allowed[gk], base.T)
+					return
 				}
 				k := u.heapKeyField(u.sortOf(pt.Elem()), x.Name)
 				allowed[k] = append(allowed[k], base.T)
